@@ -76,9 +76,13 @@ fn after_advance(sim: &mut Sim, before: &Before, numbers: &mut BTreeMap<String, 
     };
     let mut due_objects = 0;
     for o in &before.snap.rp.objects {
-        if let Some((m, _)) = margin(&o.kind) {
+        if let Some((m, valid)) = margin(&o.kind) {
             if o.not_after < t + m {
                 due_objects += 1;
+                if m < valid {
+                    // an object that the clock carried into its re-issue margin
+                    *stats.due_by_kind.entry(format!("{:?}", o.kind)).or_insert(0) += 1;
+                }
             }
         }
     }
@@ -246,6 +250,7 @@ struct Stats {
     not_due_untouched: usize,
     margin_ge_validity: usize,
     during_roll: usize,
+    due_by_kind: BTreeMap<String, usize>,
 }
 
 impl Prop for C14 {
@@ -347,6 +352,9 @@ impl Prop for C14 {
                 }
                 if stats.margin_ge_validity > 0 {
                     classes.push("margin_ge_validity".into());
+                }
+                for k in stats.due_by_kind.keys() {
+                    classes.push(format!("object_entered_margin:{k}"));
                 }
                 if stats.due_reissued > 0 {
                     classes.push("due_key_reissued_exactly_once".into());
